@@ -164,3 +164,27 @@ Proof.
   { replace (w + s - 1) with ((w - s + s - 1) + 1 * s) by ring. apply Z.div_add. lia. }
   assert (Hq0 : 0 <= (w - s + s - 1) / s) by (apply Z.div_pos; lia). lia.
 Qed.
+
+(* the same loop spelled with the events of the model: Probe, then Tick step, ... - the answer is the conjunction of what
+   its polls see, so the standalone function and histories with Probe events describe one behaviour *)
+Fixpoint polls (c : cfg) (s : Z) (n : nat) : list bool :=
+  match n with
+  | O => [snd (step c Probe)]
+  | S m => snd (step c Probe) :: polls (fst (step (fst (step c Probe)) (Tick s))) s m
+  end.
+Theorem is_locked_wait_polls fuel : forall c w s b, 0 < s ->
+  is_locked_wait fuel c w s = Some b -> b = forallb (fun x => x) (polls c s (Z.to_nat (sleeps w s))).
+Proof.
+  induction fuel as [|f IH]; intros c w s b Hs H; cbn [is_locked_wait] in H; [discriminate|].
+  unfold sleeps. destruct (Z.ltb_spec 0 w) as [Hw|Hw].
+  - assert (Hq : (w + s - 1) / s = (w - s + s - 1) / s + 1).
+    { replace (w + s - 1) with ((w - s + s - 1) + 1 * s) by ring. apply Z.div_add. lia. }
+    assert (Hq0 : 0 <= (w - s + s - 1) / s) by (apply Z.div_pos; lia).
+    replace (Z.to_nat (Z.max 0 ((w + s - 1) / s))) with (S (Z.to_nat (sleeps (w - s) s))) by (unfold sleeps; lia).
+    cbn [polls forallb step fst snd]. destruct (Z.leb_spec 0 s) as [_|]; [|lia]. fold (tick c s).
+    destruct (lock_live c) eqn:L; cbn [andb].
+    + apply IH; assumption.
+    + injection H as <-. reflexivity.
+  - injection H as <-. assert ((w + s - 1) / s < 1) by (apply Z.div_lt_upper_bound; lia).
+    replace (Z.to_nat (Z.max 0 ((w + s - 1) / s))) with O by lia. cbn. rewrite andb_true_r. reflexivity.
+Qed.
